@@ -11,6 +11,9 @@ from mc.checks import c05, c16
 
 LEVEL = "model_checking"
 SLEEP = 0.2
+# single-process search: after the (virtual) clock has passed the deadline the search has to stop
+# at its next look at the clock; a few more queries are tolerated (e.g. one per enclosing loop)
+MAX_QUERIES_PAST_DEADLINE = 3
 
 
 def run_under(prefix, texts, cpu, timeout, parallel=True, clock_jump=None):
@@ -63,7 +66,7 @@ def explore_config(item):
                 kernel, g, ignore_unknown=True, lcd_warning=g.timed_out))
             obs = (c16.lcd_obs(g), g.timed_out, rep)
         return w.choices, w.noptions, (obs, err, left, elapsed, killed, w.jumped,
-                                       w.clock_queries)
+                                       w.queries_after_jump)
 
     for choices, (obs, err, left, elapsed, killed, jumped, queries) in sched.explore(
             run_one, bound=bound, first_prefixes=first):
@@ -97,6 +100,11 @@ def explore_config(item):
         elif parallel and elapsed > timeout + SLEEP + 1e-9:
             bad.append(("late", choices, "returned after %.2f virtual s, timeout %.2f + one poll "
                         "interval allowed" % (elapsed, timeout)))
+        elif not parallel and jumped and queries > MAX_QUERIES_PAST_DEADLINE:
+            bad.append(("late", choices, "the clock passed the deadline (jump by timeout + 1000 s) "
+                        "but the search went on and asked for the time %d more times (a search "
+                        "that stops at its next check needs at most %d)"
+                        % (queries, MAX_QUERIES_PAST_DEADLINE)))
         r = RP.parse(rep)
         if r.lcd_warning != timed_out:
             bad.append(("warning", choices, "time-out warning shown=%s, timed_out=%s"
